@@ -257,6 +257,7 @@ pub fn remap_op(op: &Op, k: usize) -> Option<Op> {
             }
             Op::Search { root: remap(*root, k)?, spec: s }
         }
+        Op::GView { kind } => Op::GView { kind: *kind },
     })
 }
 
